@@ -9,6 +9,7 @@ clone, contraction, resolve_random, shuffle_children, reroot_at = (_c08.clone, _
 rename_tip, drop_tip, add_tip, from_shape = _c08.rename_tip, _c08.drop_tip, _c08.add_tip, _c08.from_shape
 
 PROP = "C09"
+PAR_OK = True
 LEVEL = "proof"
 RULE = ("collections of 1..8 trees on the same 4..9 taxa: a random multifurcating 'true' tree and variations of it "
         "(contractions, random re-resolutions, independent trees), each input unrooted (root degree >= 3) or rooted on a random "
